@@ -406,7 +406,14 @@ def plru_rule(ctx: Ctx) -> None:
     r.check(st.get("P0.tree_array") in ("Mult(Sub(P1, 1), [False])", "Mult(Sub(P0.associativity, 1), [False])",
                                         "ListComp(False for _c0 in range(Sub(P1, 1)))", "ListComp(False for _c0 in range(Sub(P0.associativity, 1)))"),
             "PLRU.__init__|tree", init.loc(), f"tree_array is not associativity-1 cleared bits: {st.get('P0.tree_array')}")
-    r.check(st.get("P0.tree_depth") in ("int(math.log2(P0.associativity))", "int(math.log2(P1))", "Sub(P1.bit_length(), 1)", "Sub(P0.associativity.bit_length(), 1)"),
-            "PLRU.__init__|depth", init.loc(), f"tree_depth is not log2(associativity): {st.get('P0.tree_depth')}")
+    depth_reads = [f for f in m.functions.values() if any(isinstance(n, ast.Attribute) and n.attr == "tree_depth" and isinstance(n.ctx, ast.Load)
+                                                            for n in ast.walk(f.node))]
+    if "P0.tree_depth" not in st and not depth_reads:
+        # no stored depth at all (e.g. a read-only property, written out where it is read by the model): the walks computed their
+        # number of levels themselves, and the abstract runs above followed exactly that computation for every associativity
+        r.inst("PLRU.__init__|depth", {"stored": False})
+    else:
+        r.check(st.get("P0.tree_depth") in ("int(math.log2(P0.associativity))", "int(math.log2(P1))", "Sub(P1.bit_length(), 1)", "Sub(P0.associativity.bit_length(), 1)"),
+                "PLRU.__init__|depth", init.loc(), f"tree_depth is not log2(associativity): {st.get('P0.tree_depth')}")
 
 
